@@ -182,6 +182,17 @@ fn pool(r: &mut Rng, n: usize) -> Vec<String> {
             out.extend(c);
             continue;
         }
+        if r.chance(1, 6) {
+            // one stem, many tails behind "nb": a second reader of the
+            // revision that disagrees with the tokeniser on a few of them
+            // breaks the order only across such a family
+            let stem = if r.chance(1, 2) { format!("{}.{}", r.below(3), r.below(3)) } else { gv::v_safe(r) };
+            let mut c = gv::revision_cluster(&stem);
+            r.shuffle(&mut c);
+            c.truncate(r.range(12, 40).min(n - out.len()));
+            out.extend(c);
+            continue;
+        }
         let seed = if r.chance(1, 3) { wild(r) } else { gv::v(r) };
         let k = r.range(4, 30).min(n - out.len());
         out.push(seed.clone());
